@@ -333,46 +333,72 @@ pub fn merge_with_sets(acc: &mut Report, o: Report) {
 pub mod wal {
     use std::sync::atomic::{AtomicI32, AtomicU64, AtomicUsize, Ordering};
 
-    const CAP: usize = 4096;
-    static mut BUF: [u8; CAP] = [0; CAP];
-    static LEN: AtomicUsize = AtomicUsize::new(0);
+    pub const CAP: usize = 192 * 1024;
+    pub const SLOTS: usize = 64;
+    struct Slot {
+        len: AtomicUsize,
+        buf: std::cell::UnsafeCell<[u8; CAP]>,
+    }
+    unsafe impl Sync for Slot {}
+    #[allow(clippy::declare_interior_mutable_const)]
+    const EMPTY: Slot = Slot { len: AtomicUsize::new(0), buf: std::cell::UnsafeCell::new([0; CAP]) };
+    static SLOT: [Slot; SLOTS] = [EMPTY; SLOTS];
     static FD: AtomicI32 = AtomicI32::new(-1);
     pub static CASE_NO: AtomicU64 = AtomicU64::new(0);
+    static NEXT: AtomicUsize = AtomicUsize::new(0);
+    thread_local! {
+        static MINE: usize = NEXT.fetch_add(1, Ordering::Relaxed) % SLOTS;
+    }
 
-    /// Record the case about to be executed (cheap: a memcpy).
+    /// Record the case this thread is about to execute (a memcpy into the thread's slot).
     #[inline]
     pub fn set(bytes: &[u8]) {
+        let i = MINE.with(|m| *m);
         let n = bytes.len().min(CAP);
-        // Single writer per process by construction (worker main thread or a lock in the
-        // caller); the handler only reads.
-        #[allow(static_mut_refs)]
+        let s = &SLOT[i];
+        s.len.store(0, Ordering::SeqCst);
         unsafe {
-            LEN.store(0, Ordering::SeqCst);
-            BUF[..n].copy_from_slice(&bytes[..n]);
-            LEN.store(n, Ordering::SeqCst);
+            (&mut *s.buf.get())[..n].copy_from_slice(&bytes[..n]);
         }
+        s.len.store(n, Ordering::SeqCst);
         CASE_NO.fetch_add(1, Ordering::Relaxed);
     }
 
+    pub fn clear() {
+        let i = MINE.with(|m| *m);
+        SLOT[i].len.store(0, Ordering::SeqCst);
+    }
+
+    /// Dump: first line = kind, then one hex line per non-empty slot.
     pub fn dump(kind: &[u8]) {
         let fd = FD.load(Ordering::SeqCst);
         if fd < 0 {
             return;
         }
-        #[allow(static_mut_refs)]
         unsafe {
-            let n = LEN.load(Ordering::SeqCst);
             libc::write(fd, kind.as_ptr() as *const _, kind.len());
             libc::write(fd, b"\n".as_ptr() as *const _, 1);
-            // hex encode without allocation
             let hexd = b"0123456789abcdef";
-            let mut out = [0u8; 2 * CAP + 1];
-            for i in 0..n {
-                out[2 * i] = hexd[(BUF[i] >> 4) as usize];
-                out[2 * i + 1] = hexd[(BUF[i] & 15) as usize];
+            for s in SLOT.iter() {
+                let n = s.len.load(Ordering::SeqCst);
+                if n == 0 {
+                    continue;
+                }
+                let buf = &*s.buf.get();
+                let mut out = [0u8; 4096];
+                let mut o = 0;
+                for &b in &buf[..n] {
+                    out[o] = hexd[(b >> 4) as usize];
+                    out[o + 1] = hexd[(b & 15) as usize];
+                    o += 2;
+                    if o == out.len() {
+                        libc::write(fd, out.as_ptr() as *const _, o);
+                        o = 0;
+                    }
+                }
+                libc::write(fd, out.as_ptr() as *const _, o);
+                libc::write(fd, b"\n".as_ptr() as *const _, 1);
             }
-            out[2 * n] = b'\n';
-            libc::write(fd, out.as_ptr() as *const _, 2 * n + 1);
             libc::fsync(fd);
         }
     }
@@ -402,12 +428,12 @@ pub mod wal {
             );
             FD.store(fd, Ordering::SeqCst);
             for s in [libc::SIGABRT, libc::SIGTERM, libc::SIGXCPU] {
-                libc::signal(s, on_signal as usize);
+                libc::signal(s, on_signal as *const () as usize);
             }
         }
     }
 
-    /// Watchdog: if the case counter does not advance for `horizon_s`, dump as "hang" and exit.
+    /// Watchdog: if no case starts for `horizon_s`, dump as "hang" and exit.
     pub fn watchdog(horizon_s: u64) {
         std::thread::spawn(move || {
             let mut last = CASE_NO.load(Ordering::Relaxed);
@@ -429,7 +455,8 @@ pub mod wal {
         });
     }
 
-    /// Suspend the watchdog's notion of progress (for phases without cases).
+    /// Progress without a case (phases that cannot hang by construction).
+    #[inline]
     pub fn tick() {
         CASE_NO.fetch_add(1, Ordering::Relaxed);
     }
